@@ -1192,6 +1192,50 @@ func (e *wireExec) sigStep(s *XStep, w *wireTok, env *envelope) {
 			return
 		}
 		m.sig.Data = sig
+	case "did_url":
+		// iss is a DID URL: the victim's identifier followed by a fragment / query / path that names
+		// the attacker's key; header and signature are the attacker's own. Whoever resolves the key
+		// from one part and the issuer from another accepts a token the victim never signed.
+		var hdr []byte
+		if dummy, derr := delegation.Root(other.id, other.id, command.MustParse("/"), nil); derr == nil {
+			if b, _, serr := dummy.ToSealed(other.priv); serr == nil {
+				if env2, oerr := openEnvelope(b); oerr == nil {
+					for i := 0; i+1 < len(env2.sp.Kids); i += 2 {
+						if string(env2.sp.Kids[i].Data) == "h" {
+							hdr = env2.sp.Kids[i+1].Data
+						}
+					}
+				}
+			}
+		}
+		if hdr == nil {
+			return
+		}
+		victim, attacker := e.cast.ent(w.spec.iss()).id.String(), other.id.String()
+		if victim == attacker {
+			return
+		}
+		tail := strings.TrimPrefix(attacker, "did:key:")
+		if s.Val%2 == 1 {
+			tail = attacker
+		}
+		iss := victim + []string{"#", "?", "/", ";", "#key="}[s.At%5] + tail
+		if s.Val%7 == 6 {
+			iss = attacker + "#" + strings.TrimPrefix(victim, "did:key:")
+		}
+		for i := 0; i+1 < len(m.sp.Kids); i += 2 {
+			if string(m.sp.Kids[i].Data) == env.tag {
+				m.sp.Kids[i+1].MapSet("iss", cbText(iss))
+				m.sp.Kids[i+1].MapSet("aud", cbText(attacker))
+			}
+		}
+		m.sp.MapSet("h", cbBytes(hdr))
+		sig, err := other.priv.Sign(m.sp.Encode())
+		if err != nil {
+			return
+		}
+		m.sig.Data = sig
+		desc = "issuer given as a DID URL naming another key"
 	case "iss_swapped": // iss rewritten to another principal, old signature
 		for i := 0; i+1 < len(m.sp.Kids); i += 2 {
 			if string(m.sp.Kids[i].Data) == env.tag {
